@@ -48,7 +48,7 @@ ASSUMPTIONS = ["trusted base: the reference header builder/classifier in this mo
                "an exception escaping dataReceived is what a reactor turns into a closed connection; it is counted, not treated as acceptance",
                "after loseConnection() the simulated transport delivers nothing more (TCP transport stops reading)"]
 SHARDS = {"quick": 4, "thorough": 16}
-FLOORS = {"v2_length_field_family": 150, "v2_length_field_ge_32768": 30, "second_header_in_payload": 200, "valid_checked": 2000, "invalid_checked": 500, "addr_comparisons": 2000, "v1_cases": 500, "v2_cases": 500,
+FLOORS = {"v2_length_field_family": 100, "v2_length_field_ge_32768": 20, "second_header_in_payload": 100, "valid_checked": 2000, "invalid_checked": 500, "addr_comparisons": 2000, "v1_cases": 500, "v2_cases": 500,
           "split_inside_header": 2000, "tlv_headers": 10, "unix_headers": 5, "local_or_unknown": 20}
 READY = True
 
